@@ -776,3 +776,158 @@ Proof.
   apply in_map_iff in Hp as [q [<- Hq]]. unfold not_generated. cbn [x_post].
   rewrite annotate_cost_flags, (Hu q Hq). reflexivity.
 Qed.
+
+(* ------------------------------------------------------------ the re-check after the extension *)
+
+(* the balance is re-checked exactly when SOME generated posting must balance, wherever it
+   stands among the generated postings (not: when the last one must) *)
+Theorem needs_verify_iff cp st r payee ps :
+  existsb x_must_balance (contribution cp st r payee ps) = true <->
+  (candidates r payee ps <> [] /\ exists l, In l (r_lines r) /\ rl_kind l <> PVirtual).
+Proof.
+  unfold contribution. rewrite existsb_exists. split.
+  - intros [x [Hx Hm]]. apply in_flat_map in Hx as [y [Hy Hx]]. apply in_map_iff in Hx as [l [<- Hl]].
+    split; [intros E; rewrite E in Hy; exact Hy|]. exists l. split; [exact Hl|].
+    unfold x_must_balance, must_balance in Hm. cbn [x_post inst_post p_kind] in Hm.
+    intros E. rewrite E in Hm. discriminate.
+  - intros [Hne [l [Hl Hk]]]. destruct (candidates r payee ps) as [|y ys]; [contradiction|].
+    exists (inst_post cp st (x_post y) l). split.
+    + apply in_flat_map. exists y. split; [left; reflexivity | apply in_map; exact Hl].
+    + unfold x_must_balance, must_balance. cbn [x_post inst_post p_kind]. destruct (rl_kind l); congruence.
+Qed.
+
+(* an accepted extension containing a new must-balance posting: the balance of ALL postings that
+   must balance (original and generated), which is their exact per-commodity sum, displays as
+   zero *)
+Theorem extended_accepted_displays_zero ord cp r payee st ps ps' :
+  extend_pure ord cp r payee st ps = Ok ps' ->
+  existsb x_must_balance (contribution cp st r payee ps) = true ->
+  exists bal nul, scan_posts ord (map x_post ps') 0 VVoid None = Ok (bal, nul) /\
+                  v_is_zero cp bal = true /\ forall c, den bal c == bsum (map x_post ps') c.
+Proof.
+  intros H Hmb. pose proof (extend_pure_spec _ _ _ _ _ _ _ H) as Hp. unfold extend_pure in H.
+  destruct (gen_pure cp r payee st ps) as [new|] eqn:Hg; cbn [bind] in H; [|discriminate].
+  pose proof (gen_pure_spec _ _ _ _ _ _ Hg) as ->. unfold finish in H. rewrite Hmb in H.
+  destruct (verify ord cp (map x_post (ps ++ contribution cp st r payee ps))) as [[]|] eqn:Hv; cbn [bind] in H; [|discriminate].
+  rewrite Hp. unfold verify in Hv.
+  destruct (scan_posts ord (map x_post (ps ++ contribution cp st r payee ps)) 0 VVoid None) as [[bal nul]|] eqn:Hs;
+    cbn [bind fst] in Hv; [|discriminate].
+  destruct (existsb same_comm_cost _); [discriminate|].
+  destruct (v_is_zero cp bal) eqn:Hz; cbn [negb] in Hv; [|discriminate].
+  exists bal, nul. split; [reflexivity|]. split; [exact Hz|].
+  intros c. rewrite (scan_posts_exact ord c _ _ _ _ _ _ Hs). cbn [den]. ring.
+Qed.
+
+(* ---- the order of the rule's lines *)
+From Coq Require Import Permutation.
+
+Lemma flat_map_perm_pointwise {A B} (f g : A -> list B) l :
+  (forall x, Permutation (f x) (g x)) -> Permutation (flat_map f l) (flat_map g l).
+Proof.
+  intros H. induction l as [|x l IH]; cbn [flat_map]; [constructor|]. apply Permutation_app; [apply H | exact IH].
+Qed.
+
+Lemma existsb_perm {A} (f : A -> bool) l l' : Permutation l l' -> existsb f l = existsb f l'.
+Proof.
+  induction 1 as [| x l l' _ IH | x y l | l l' l'' _ IH1 _ IH2]; cbn [existsb].
+  - reflexivity.
+  - rewrite IH. reflexivity.
+  - destruct (f x), (f y); reflexivity.
+  - rewrite IH1. exact IH2.
+Qed.
+
+Lemma bsum_permutation ps qs c : Permutation ps qs -> bsum ps c == bsum qs c.
+Proof.
+  induction 1 as [| x l l' _ IH | x y l | l l' l'' _ IH1 _ IH2]; cbn [bsum].
+  - reflexivity.
+  - rewrite IH. reflexivity.
+  - ring.
+  - rewrite IH1. exact IH2.
+Qed.
+
+Lemma count_nulls_perm ps qs : Permutation ps qs -> count_nulls ps = count_nulls qs.
+Proof.
+  induction 1 as [| x l l' _ IH | x y l | l l' l'' _ IH1 _ IH2]; cbn [count_nulls].
+  - reflexivity.
+  - rewrite IH. reflexivity.
+  - lia.
+  - rewrite IH1. exact IH2.
+Qed.
+
+Definition same_but_line_order (r r' : rule) : Prop :=
+  r_pred r = r_pred r' /\ Permutation (r_lines r) (r_lines r').
+
+Lemma contribution_line_perm cp st r r' payee ps :
+  same_but_line_order r r' ->
+  Permutation (contribution cp st r payee ps) (contribution cp st r' payee ps).
+Proof.
+  intros [Hp Hl]. unfold contribution.
+  assert (Hc : candidates r payee ps = candidates r' payee ps).
+  { unfold candidates. f_equal. unfold matchesb. rewrite Hp. reflexivity. }
+  rewrite Hc. apply flat_map_perm_pointwise. intros x. apply Permutation_map. exact Hl.
+Qed.
+
+Lemma extended_posts_line_perm cp st r r' payee ps :
+  same_but_line_order r r' ->
+  Permutation (map x_post (ps ++ contribution cp st r payee ps)) (map x_post (ps ++ contribution cp st r' payee ps)).
+Proof.
+  intros H. apply Permutation_map, Permutation_app_head, contribution_line_perm, H.
+Qed.
+
+(* whether the re-check runs does not depend on the order of the lines, and neither does the
+   exact per-commodity sum it tests *)
+Theorem line_order_verify_free cp st r r' payee ps :
+  same_but_line_order r r' ->
+  existsb x_must_balance (contribution cp st r payee ps) = existsb x_must_balance (contribution cp st r' payee ps) /\
+  forall c, bsum (map x_post (ps ++ contribution cp st r payee ps)) c ==
+            bsum (map x_post (ps ++ contribution cp st r' payee ps)) c.
+Proof.
+  intros H. split.
+  - apply existsb_perm, contribution_line_perm, H.
+  - intros c. apply bsum_permutation, extended_posts_line_perm, H.
+Qed.
+
+(* acceptance does not depend on the order of the rule's lines: a rule whose must-balance lines
+   leave a whole unit over is rejected in every order of its lines, in particular when a
+   (virtual) line comes last; one that balances exactly is accepted in every order *)
+Theorem line_order_unbalanced_rejected ord cp r r' payee st ps c :
+  let ext := map x_post (ps ++ contribution cp st r payee ps) in
+  same_but_line_order r r' ->
+  (forall k, 0 <= cp k <= 230)%Z ->
+  (exists new, gen_pure cp r payee st ps = Ok new) -> (exists new, gen_pure cp r' payee st ps = Ok new) ->
+  existsb x_must_balance (contribution cp st r payee ps) = true ->
+  (count_nulls ext <= 1)%nat -> existsb same_comm_cost ext = false ->
+  1 <= Qabs (bsum ext c) ->
+  extend_pure ord cp r payee st ps = Err EUnbalanced /\ extend_pure ord cp r' payee st ps = Err EUnbalanced.
+Proof.
+  intros ext Hs Hcp Hg Hg' Hmb Hn Hc Hbig.
+  destruct (line_order_verify_free cp st r r' payee ps Hs) as [He Hb].
+  pose proof (extended_posts_line_perm cp st r r' payee ps Hs) as Hperm.
+  split.
+  - apply (extended_unbalanced_rejected ord cp r payee st ps c Hcp Hg Hmb Hn Hc Hbig).
+  - apply (extended_unbalanced_rejected ord cp r' payee st ps c Hcp Hg').
+    + rewrite <- He. exact Hmb.
+    + rewrite <- (count_nulls_perm _ _ Hperm). exact Hn.
+    + rewrite <- (existsb_perm same_comm_cost _ _ Hperm). exact Hc.
+    + rewrite <- (Hb c). exact Hbig.
+Qed.
+
+Theorem line_order_balanced_accepted ord cp r r' payee st ps :
+  let ext := map x_post (ps ++ contribution cp st r payee ps) in
+  same_but_line_order r r' ->
+  (exists new, gen_pure cp r payee st ps = Ok new) -> (exists new, gen_pure cp r' payee st ps = Ok new) ->
+  (count_nulls ext <= 1)%nat -> existsb same_comm_cost ext = false ->
+  (forall c, bsum ext c == 0) ->
+  extend_pure ord cp r payee st ps = Ok (ps ++ contribution cp st r payee ps) /\
+  extend_pure ord cp r' payee st ps = Ok (ps ++ contribution cp st r' payee ps).
+Proof.
+  intros ext Hs Hg Hg' Hn Hc Hz.
+  destruct (line_order_verify_free cp st r r' payee ps Hs) as [He Hb].
+  pose proof (extended_posts_line_perm cp st r r' payee ps Hs) as Hperm.
+  split.
+  - apply (extended_balanced_accepted ord cp r payee st ps Hg Hn Hc Hz).
+  - apply (extended_balanced_accepted ord cp r' payee st ps Hg').
+    + rewrite <- (count_nulls_perm _ _ Hperm). exact Hn.
+    + rewrite <- (existsb_perm same_comm_cost _ _ Hperm). exact Hc.
+    + intros c. rewrite <- (Hb c). apply Hz.
+Qed.
